@@ -31,6 +31,9 @@ func coresOfSpec(s *spec.Spec) func(string) int {
 		if c == 0 {
 			c = 1
 		}
+		if c == -1 {
+			c = 0 // CoresPerTask explicitly set to 0
+		}
 		m[p.Name] = c
 	}
 	return func(id string) int {
